@@ -295,6 +295,61 @@ impl Part for Random {
     }
 }
 
+
+/// the same verdict when the 6 bytes travel inside packets (STA.track, RST.track, relay HOS element)
+pub struct ViaPackets;
+impl Part for ViaPackets {
+    type Case = [u8; 6];
+    fn name(&self) -> &'static str {
+        "through-sta-rst-hos-frames"
+    }
+    fn check(&self, b: &[u8; 6], ev: &mut Local) -> Result<(), Fail> {
+        use insim::net::{Codec, Mode};
+        let want = wires().get(b).copied();
+        let codec = Codec::new(Mode::Uncompressed);
+        for (name, ty, len, off) in [("Sta", 5u8, 28usize, 20usize), ("Rst", 17, 28, 8), ("RelayHos", 253, 44, 36)] {
+            let mut f = vec![0u8; len];
+            f[0] = len as u8;
+            f[1] = ty;
+            if name == "RelayHos" {
+                f[3] = 1;
+            }
+            f[off..off + 6].copy_from_slice(b);
+            let mut buf = bytes::BytesMut::from(&f[..]);
+            let r = match guard(|| codec.decode(&mut buf)) {
+                Ok(r) => r,
+                Err(p) => {
+                    if want.is_some() {
+                        fail!("c14:panic", "{name}: {p}");
+                    }
+                    continue;
+                },
+            };
+            match (want, r) {
+                (None, Err(_)) => {},
+                (None, Ok(p)) => fail!("c14:foreign-bytes-accepted", "{name}: track bytes {:02x?} accepted: {:?}", b, p.map(|p| format!("{p:?}").chars().take(160).collect::<String>())),
+                (Some(v), Err(e)) => fail!("c14:read-table", "{name}: wire form of {v} rejected: {e}"),
+                (Some(v), Ok(Some(p))) => {
+                    let d = format!("{p:?}");
+                    ensure!(d.contains(&format!("track: {v},")), "c14:read-table", "{name}: wire form of {v} decodes to {}", d.chars().take(200).collect::<String>());
+                    let back = guard(|| codec.encode(&p)).map_err(|p| Fail::new("c14:panic", p))?.map_err(|e| Fail::new("c14:write-error", format!("{name}: {e}")))?;
+                    ensure!(back[off..off + 6] == b[..], "c14:wire-table", "{name}: {v} re-encoded as {:02x?}", &back[off..off + 6]);
+                },
+                (Some(_), Ok(None)) => fail!("harness:frame", "incomplete"),
+            }
+        }
+        ev.class(if want.is_some() { "valid-form" } else { "rejected" });
+        ev.nontrivial(b);
+        Ok(())
+    }
+    fn to_json(&self, c: &[u8; 6]) -> Value {
+        json!({"bytes": hex(c)})
+    }
+    fn from_json(&self, v: &Value) -> Option<[u8; 6]> {
+        unhex(v.get("bytes")?.as_str()?)?.try_into().ok()
+    }
+}
+
 pub fn parts() -> Vec<Box<dyn DynPart>> {
     vec![
         Box::new(Variants),
@@ -302,6 +357,7 @@ pub fn parts() -> Vec<Box<dyn DynPart>> {
         Box::new(Shaped),
         Box::new(Perturbed),
         Box::new(Random),
+        Box::new(ViaPackets),
     ]
 }
 
@@ -341,7 +397,11 @@ pub fn run(run: &mut Run) {
             }
         }
     }
+    // through packets: every wire form, and every 7th perturbation
+    let mut via: Vec<[u8; 6]> = TRACK_VARIANTS.iter().map(|v| expected_wire(v)).collect();
+    via.extend(pert.iter().step_by(7).cloned());
     run.list(&Perturbed, "perturbed-wire-forms", pert);
+    run.list(&ViaPackets, "through-sta-rst-hos-frames", via);
     let alphabet = prop_oneof![
         4 => prop::sample::select(b"ABEFKLORSTUWXY0123456789".to_vec()),
         1 => Just(0u8),
